@@ -36,9 +36,21 @@ def gen_graph(rng):
     n = rng.choice([1, 2, 2, 3, 3, 4, 4, 5, 6, 8])
     nss = rng.sample(NAMESPACES, rng.choice([1, 1, 2, 3]))
     types = []
+    shorts = ["T%d" % i for i in range(n)]
+    if len(nss) > 1 and rng.random() < 0.6:
+        shorts = ["T%d" % rng.randrange(max(1, (n + 1) // 2)) for _ in range(n)]      # the same short name in several namespaces
+    used = set()
     for i in range(n):
         kind = "record" if i == 0 else rng.choice(["record", "record", "record", "enum", "fixed"])
-        types.append(dict(i=i, kind=kind, ns=rng.choice(nss), short="T%d" % i, deps=[]))
+        ns_i, short = rng.choice(nss), shorts[i]
+        for _ in range(10):
+            if (ns_i, short) not in used:
+                break
+            ns_i = rng.choice(nss)
+        if (ns_i, short) in used:
+            short = "T%d_%d" % (i, i)
+        used.add((ns_i, short))
+        types.append(dict(i=i, kind=kind, ns=ns_i, short=short, deps=[]))
     # every type i > 0 is used by at least one earlier record; a null-namespace type can only be named from the null namespace
     for i in range(1, n):
         t = types[i]
@@ -46,6 +58,7 @@ def gen_graph(rng):
         ok = [p for p in parents if t["ns"] != "" or p["ns"] == ""]
         if not ok:
             t["ns"] = rng.choice([x for x in NAMESPACES if x])
+            t["short"] = "T%d_%d" % (i, i)
             ok = parents
         for p in rng.sample(ok, min(len(ok), rng.choice([1, 1, 2, 3]))):
             p["deps"].append(i)
@@ -342,6 +355,13 @@ def run(ctx):
         "a.P": {"type": "record", "name": "a.P", "fields": [{"name": "q", "type": "b.Q"}, {"name": "r", "type": "b.R"}]},
         "b.Q": {"type": "record", "name": "Q", "namespace": "b", "fields": [{"name": "r", "type": "R"}]},
         "b.R": {"type": "record", "name": "R", "namespace": "b", "fields": []}}))
+    # the same short name in two namespaces: b.X spelled "X" twice inside namespace b, then a.X
+    graphs.append(dict(top="b.T", n=3, deps={"b.T": ["b.X", "a.X"], "b.X": [], "a.X": []}, files={
+        "b.T": {"type": "record", "name": "T", "namespace": "b", "fields": [
+            {"name": "f1", "type": "X"}, {"name": "f2", "type": ["null", "X"]}, {"name": "f3", "type": {"type": "array", "items": "X"}},
+            {"name": "f4", "type": "a.X"}, {"name": "f5", "type": ["null", "a.X"]}]},
+        "b.X": {"type": "enum", "name": "X", "namespace": "b", "symbols": ["B1", "B2"]},
+        "a.X": {"type": "record", "name": "a.X", "fields": [{"name": "v", "type": "long"}]}}))
     # a null-namespace record nested ("namespace": "") in a namespaced file refers to a null-namespace type with its own file
     graphs.append(dict(top="a.P", n=3, deps={"a.P": ["X", "a.E"], "X": [], "a.E": []}, files={
         "a.P": {"type": "record", "name": "P", "namespace": "a", "fields": [
